@@ -24,12 +24,20 @@ func replayViolation(prop string, v sym.Violation) (string, bool, string) {
 	model := map[string]interface{}{"harness": v.Harness, "failed": v.Label, "inputs": v.Model, "path": v.Decisions, "detail": v.Detail, "pc": v.PC}
 	b, _ := json.MarshalIndent(model, "", " ")
 	os.WriteFile(filepath.Join(dir, "model.json"), b, 0644)
-	spec := findSpec(v.Harness)
+	spec := findSpecFor(prop, v.Harness)
 	mode := "native"
 	if spec != nil && spec.Replay != "" {
 		mode = spec.Replay
 	}
 	switch mode {
+	case "e2e-regen":
+		ok, out := e2eRegen(v.Model)
+		os.WriteFile(filepath.Join(dir, "observed.txt"), []byte(out), 0644)
+		os.WriteFile(filepath.Join(dir, "cmd.sh"), []byte(fmt.Sprintf("#!/bin/sh\n/verif/check %s --replay %s\n", prop, dir)), 0755)
+		if ok {
+			return dir, true, "reproduced end-to-end with the built binary"
+		}
+		return dir, false, "end-to-end regeneration runs behave as on an empty output path: " + clip(strings.TrimSpace(out), 300)
 	case "e2e-cli":
 		ok, out := e2eCLI(v.Model)
 		os.WriteFile(filepath.Join(dir, "observed.txt"), []byte(out), 0644)
@@ -251,7 +259,9 @@ func cmdReplay(prop, path string) int {
 		fmt.Println("corpus case", cs, "generates and compiles on the current tree")
 		return 0
 	}
-	if spec := findSpec(m.Harness); spec != nil && spec.Replay == "e2e-cli" {
+	if spec := findSpecFor(prop, m.Harness); spec != nil && spec.Replay == "e2e-regen" {
+		ok, out = e2eRegen(m.Inputs)
+	} else if spec := findSpecFor(prop, m.Harness); spec != nil && spec.Replay == "e2e-cli" {
 		ok, out = e2eCLI(m.Inputs)
 	} else {
 		ok, out = nativeReplay(m.Harness, m.Failed, filepath.Join(path, "model.json"))
